@@ -427,6 +427,7 @@ func TestPruneConform(t *testing.T) {
 				r.finale(w, nil)
 			}
 		})
+	imageStats(out)
 	out.Count("conform_behaviours", len(jobs))
 	out.Count("conform_steps", steps)
 	out.Done(len(jobs), steps)
@@ -449,77 +450,106 @@ func TestPruneEnum(t *testing.T) {
 	defer out.Write()
 	defer machinery(out)
 	startDeadline(out, in.DeadlineSec)
+	type pr struct{ at, last, muts int }
 	type jb struct {
-		bi int
-		ns bool
-		be string
+		bi     int
+		ns     bool
+		be     string
+		prunes []pr // the prunes of the behaviour: delivery step -> number of mutations
+		dumps  map[int][]faultkv.KV
+		ok     bool
 	}
-	var jobs []jb
-	for bi := range in.Behaviours {
+	var jobs []*jb
+	for bi, b := range in.Behaviours {
+		var prunes []pr
+		for i := 0; i < len(b); i++ {
+			if b[i].A.Name == "DeliverHead" || b[i].A.Name == "DeliverL1" {
+				j := i + 1
+				for j < len(b) && b[j].A.Name == "PruneStep" {
+					j++
+				}
+				if j > i+1 {
+					prunes = append(prunes, pr{i, j - 1, b[j-1].Res.Muts})
+				}
+			}
+		}
 		for _, ns := range in.NewState {
 			for _, be := range in.Backends {
-				jobs = append(jobs, jb{bi, ns, be})
+				jobs = append(jobs, &jb{bi: bi, ns: ns, be: be, prunes: prunes})
 			}
 		}
 	}
-	parallel(out, len(jobs), workers,
+	mk := func(j *jb, sub *vh.Result) *runner {
+		return &runner{in: in, out: sub, b: in.Behaviours[j.bi], ns: j.ns, be: j.be, seed: in.seedFor(j.bi)}
+	}
+	// phase 1: the uninterrupted runs (reference databases); independent worlds, a few at a time
+	if in.Only == nil {
+		parallel(out, len(jobs), workers,
+			func(i int) any {
+				j := jobs[i]
+				return in.narrowed(in.Behaviours[j.bi], j.ns, j.be, nil, in.seedFor(j.bi))
+			},
+			func(i int, sub *vh.Result) {
+				j := jobs[i]
+				r := mk(j, sub)
+				w := r.newWorld()
+				if w == nil {
+					return
+				}
+				j.dumps, j.ok = r.play(w, false, nil)
+				w.close()
+				sub.Count("enum_sequences", 1)
+				if j.bi < 2 && j.ns == in.NewState[0] {
+					sub.Sample(vh.J{"enum": opsString(r.b), "prunes": len(j.prunes)})
+				}
+			})
+	}
+	// phase 2: every interruption point of every prune
+	type tr struct {
+		j    *jb
+		p    pr
+		k    int
+		mode string
+	}
+	var trials []tr
+	for _, j := range jobs {
+		for _, p := range j.prunes {
+			if in.Only != nil {
+				if p.at == in.Only.Step {
+					trials = append(trials, tr{j, p, in.Only.K, in.Only.Mode})
+				}
+				continue
+			}
+			if !j.ok {
+				continue
+			}
+			for k := 1; k <= p.muts; k++ {
+				for _, mode := range []string{"cancel", "crash"} {
+					trials = append(trials, tr{j, p, k, mode})
+				}
+			}
+		}
+	}
+	parallel(out, len(trials), workers,
 		func(i int) any {
-			j := jobs[i]
-			return in.narrowed(in.Behaviours[j.bi], j.ns, j.be, in.Only, in.seedFor(j.bi))
+			t := trials[i]
+			return in.narrowed(in.Behaviours[t.j.bi], t.j.ns, t.j.be, &only{t.p.at, t.k, t.mode}, in.seedFor(t.j.bi))
 		},
 		func(i int, sub *vh.Result) {
-			bi, ns, be := jobs[i].bi, jobs[i].ns, jobs[i].be
-			b := in.Behaviours[bi]
-			r := &runner{in: in, out: sub, b: b, ns: ns, be: be, seed: in.seedFor(bi)}
-			// the prunes of the behaviour: delivery step -> number of mutations
-			type pr struct{ at, last, muts int }
-			var prunes []pr
-			for i := 0; i < len(b); i++ {
-				if b[i].A.Name == "DeliverHead" || b[i].A.Name == "DeliverL1" {
-					j := i + 1
-					for j < len(b) && b[j].A.Name == "PruneStep" {
-						j++
-					}
-					if j > i+1 {
-						prunes = append(prunes, pr{i, j - 1, b[j-1].Res.Muts})
-					}
-				}
+			t := trials[i]
+			var ref []faultkv.KV
+			if t.j.dumps != nil {
+				ref = t.j.dumps[t.p.last]
 			}
-			if in.Only != nil {
-				for _, p := range prunes {
-					if p.at == in.Only.Step {
-						r.trial(p.at, p.last, in.Only.K, in.Only.Mode, nil)
-						sub.Count("interruption_trials", 1)
-					}
-				}
-				return
-			}
-			w := r.newWorld()
-			if w == nil {
-				return
-			}
-			dumps, ok := r.play(w, false, nil)
-			w.close()
-			sub.Count("enum_sequences", 1)
-			if !ok {
-				return
-			}
-			for _, p := range prunes {
-				for k := 1; k <= p.muts; k++ {
-					for _, mode := range []string{"cancel", "crash"} {
-						r.trial(p.at, p.last, k, mode, dumps[p.last])
-						sub.Count("interruption_trials", 1)
-						sub.Count(mode+"_points", 1)
-					}
-				}
-			}
-			if bi < 2 && ns == in.NewState[0] {
-				sub.Sample(vh.J{"enum": opsString(b), "prunes": len(prunes)})
+			mk(t.j, sub).trial(t.p.at, t.p.last, t.k, t.mode, ref)
+			sub.Count("interruption_trials", 1)
+			if in.Only == nil {
+				sub.Count(t.mode+"_points", 1)
 			}
 		})
 	runs, _ := out.Stats["enum_sequences"].(int)
-	trials, _ := out.Stats["interruption_trials"].(int)
-	out.Done(runs+trials, trials)
+	ntr, _ := out.Stats["interruption_trials"].(int)
+	out.Done(runs+ntr, ntr)
 }
 
 // trial: run up to the prune at step `at`, interrupt it at mutation k, restart, check, deliver the
@@ -828,9 +858,10 @@ func concurrentRound(r *runner, w *world, out *vh.Result, pb int) {
 // ------------------------------------------------------------------ directed boundary scenarios
 // TestPruneWindow: the concretisation of the specification's residues of the oldest retained block
 // modulo the window size on the code's real window (W = core.NumBlocksPerFilter): the real service
-// prunes a chain that straddles block W so that the oldest retained block becomes W-2, W-1, W, W+1
-// (in one batch and in one batch per block, i.e. with every intermediate bound on the way), with
-// the event index
+// prunes a chain that straddles block kW — k = 1: the first window, which the code treats apart
+// (nothing to delete below W); k = 2: a window in the middle, whose predecessor is already gone — so
+// that the oldest retained block becomes kW-2, kW-1, kW, kW+1 (in one batch and in one batch per
+// block, i.e. with every intermediate bound on the way), with the event index
 //
 //	cold      never asked before the prune (the persisted window is not in the query cache)
 //	warm      asked before the prune
@@ -845,6 +876,7 @@ func concurrentRound(r *runner, w *world, out *vh.Result, pb int) {
 // every monitor of the property (event queries against a scan of the twin's receipts included),
 // extension, and reverts back across the boundary down to the oldest retained block.
 type winCase struct {
+	K        int    `json:"k"` // the boundary is block K*W
 	Keep     int    `json:"keep"`
 	PB       int    `json:"pb"`
 	Mode     string `json:"mode"`
@@ -852,11 +884,16 @@ type winCase struct {
 	Seed     int64  `json:"seed"`
 }
 
+type winPlan struct {
+	NewState bool     `json:"newState"`
+	Modes    []string `json:"modes"` // empty: all
+	K        []int    `json:"k"`     // empty: 1 and 2
+}
+
 type winInput struct {
-	NewState    []bool   `json:"newState"`
-	Modes       []string `json:"modes"`
-	Only        *winCase `json:"only,omitempty"`
-	DeadlineSec int      `json:"deadlineSec,omitempty"`
+	Plans       []winPlan `json:"plans,omitempty"` // empty: every mode on both state backends
+	Only        *winCase  `json:"only,omitempty"`
+	DeadlineSec int       `json:"deadlineSec,omitempty"`
 }
 
 // wantWindows: Prune.tla Canonical / EventsCovered in closed form.
@@ -887,20 +924,25 @@ func TestPruneWindow(t *testing.T) {
 	if in.Only != nil {
 		cases = []winCase{*in.Only}
 	} else {
-		if len(in.NewState) == 0 {
-			in.NewState = []bool{false, true}
+		if len(in.Plans) == 0 {
+			in.Plans = []winPlan{{NewState: false}, {NewState: true}}
 		}
-		if len(in.Modes) == 0 {
-			in.Modes = []string{"cold", "warm", "lazy", "crash", "graceful", "step"}
-		}
-		wb := int(core.NumBlocksPerFilter)
 		i := 0
-		for _, ns := range in.NewState {
-			for _, mode := range in.Modes {
-				for _, pb := range []int{99, 1} {
-					for keep := wb - 2; keep <= wb+1; keep++ {
-						i++
-						cases = append(cases, winCase{keep, pb, mode, ns, vh.Seed()*1000 + int64(i)})
+		for _, pl := range in.Plans {
+			if len(pl.Modes) == 0 {
+				pl.Modes = []string{"cold", "warm", "lazy", "crash", "graceful", "step"}
+			}
+			if len(pl.K) == 0 {
+				pl.K = []int{1, 2}
+			}
+			for _, k := range pl.K {
+				wb := k * int(core.NumBlocksPerFilter)
+				for _, mode := range pl.Modes {
+					for _, pb := range []int{99, 1} {
+						for keep := wb - 2; keep <= wb+1; keep++ {
+							i++
+							cases = append(cases, winCase{k, keep, pb, mode, pl.NewState, vh.Seed()*1000 + int64(i)})
+						}
 					}
 				}
 			}
@@ -909,13 +951,15 @@ func TestPruneWindow(t *testing.T) {
 	// the cases are independent worlds: a few at a time, results merged in case order
 	parallel(out, len(cases), workers, func(i int) any { return winInput{Only: &cases[i]} },
 		func(i int, sub *vh.Result) { windowCase(sub, cases[i]) })
+	imageStats(out)
 	out.Count("window_cases", len(cases))
 	out.Done(len(cases), len(cases))
 }
 
 func windowCase(out *vh.Result, c winCase) {
-	wb := int(core.NumBlocksPerFilter)
-	k := consts{Base: wb - 8, InitH: wb + 5, MaxH: wb + 8, MaxL1: wb + 10, Retained: 1, PruneBatch: c.PB, L2PerPrune: 1, W: wb}
+	wb := max(1, c.K) * int(core.NumBlocksPerFilter)
+	k := consts{Base: wb - 8, InitH: wb + 5, MaxH: wb + 8, MaxL1: wb + 10, Retained: 1, PruneBatch: c.PB, L2PerPrune: 1,
+		W: int(core.NumBlocksPerFilter)}
 	r := &runner{replayInput: winInput{Only: &c}, in: input{Consts: k}, out: out, ns: c.NewState, be: "memory", seed: c.Seed}
 	w := r.newWorld()
 	if w == nil {
@@ -945,7 +989,7 @@ func windowCase(out *vh.Result, c winCase) {
 		}
 		if key == "prune-window:persisted-windows-differ" {
 			for _, g := range p.Win {
-				if g >= 0 && g+wb <= p.Oldest {
+				if g >= 0 && g+int(core.NumBlocksPerFilter) <= p.Oldest {
 					key = "prune-window:filter-wholly-below-oldest-retained-kept"
 				}
 			}
